@@ -158,6 +158,7 @@ func main() {
 			an := &An{C: c, F: fe, E: eff, R: r}
 			runProp(id, an)
 			an.closedTables(id)
+			an.closedEvents(id)
 			r.Extra["configurations"] = appendStr(r.Extra["configurations"], cfgName)
 			r.Extra["functions_analysed"] = len(c.FuncSeq)
 			r.Extra["callgraph_nodes"] = len(c.CG.Nodes)
